@@ -89,7 +89,7 @@ Proof.
       * intros e He Hs. specialize (HE e He). unfold EdgeInv in HE. rewrite Hs in HE.
         destruct HE as [e1 e2 e3 e4]. constructor; simpl; auto.
       * intros e He Hd. exfalso. eapply Hnoin; eauto.
-  - destruct (is_perm perm (ins c v)) eqn:Hp; [|discriminate]. inv_some. subst nv.
+  - destruct (is_perm perm (ins c v)) eqn:Hp; [|discriminate]. destruct (par_sorted c perm); [|discriminate]. cbn [andb] in *. inv_some. subst nv.
     destruct (is_perm_in _ _ Hp (nodup_ins c v)) as [Hin NDp].
     eapply frame with (v := v); eauto; simpl.
     + reflexivity.
@@ -182,9 +182,8 @@ Lemma pres_endround s v s' : Inv s -> v < nn c -> step c s (AEndRound v) = Some 
 Proof.
   intros HI Hv Hstep. setup HI Hv Hstep.
   destruct (ct (ns s v)) as [|todo0 saw| |] eqn:Ct; try discriminate.
-  destruct todo0; try discriminate. inv_some.
   destruct (n6 _ _ eq_refl) as [ND [Hsub Hsl]].
-  destruct saw.
+  destruct saw; [destruct (forallb (epar c) todo0); try discriminate|destruct todo0; try discriminate]; cbn [andb] in *; inv_some.
   - specialize (n5 _ eq_refl).
     eapply frame with (v := v); eauto; simpl.
     + reflexivity.
